@@ -172,6 +172,40 @@ def gen_history(rng, mode, maxlen):
     return ops
 
 
+def default_times(ops):
+    return list(range(1, len(ops) + 1))
+
+
+def random_times(rng, ops):
+    """non-decreasing logical times: an operation happens in the same tick as the one before it
+    with probability 0.3 (an edit stamped exactly like the output the last build wrote; a build in
+    the tick of the edit before it), otherwise one tick later"""
+    ts, t = [], 0
+    for k, _ in enumerate(ops):
+        if k == 0 or rng.random() >= 0.3:
+            t += 1
+        ts.append(t)
+    return ts
+
+
+def same_tick_histories():
+    """equal modification times: (a) grammar / lexer edited in the tick of the output the previous
+    build wrote; (b) a build in the tick of the edit before it, so that the output it writes is
+    not newer than its source and the first rebuild must regenerate"""
+    B = ("B",)
+    hs = []
+    for mode in ("P", "C"):
+        hs.append((mode, 0, 0, [B, ("Y", 1), B, B], [1, 1, 2, 3]))
+        hs.append((mode, 0, 0, [B, ("Y", 2), B, ("Y", 1), B], [1, 1, 1, 1, 2]))
+        hs.append((mode, 0, 0, [("Y", 1), B, B, B], [1, 1, 2, 3]))
+        hs.append((mode, 0, 0, [B, B, ("Y", 4), B, ("Y", 30), B, ("Y", 0), B], [1, 2, 2, 3, 3, 4, 4, 4]))
+        hs.append((mode, 0, 0, [B, ("S", "vis", 1), B, ("Y", 0), B], [1, 1, 2, 2, 3]))
+    hs.append(("C", 0, 0, [B, ("L", 1), B, B], [1, 1, 2, 3]))
+    hs.append(("C", 0, 0, [B, ("L", 1), B, ("L", 2), ("Y", 1), B], [1, 1, 1, 1, 1, 2]))
+    hs.append(("C", 0, 0, [("L", 2), B, B], [1, 1, 2]))
+    return hs
+
+
 def targeted_histories():
     """build, change exactly one option, build (every option, every other value,
     both modes); plus the corpus of the known shapes."""
@@ -194,7 +228,7 @@ def targeted_histories():
     return hs
 
 
-def model_line(mode, g0, l0, ops):
+def model_line(mode, g0, l0, ops, times):
     def ysrc(g):
         _, syn, warn, conf, toks = _G[g]
         return "%d %d %d %d %d" % (g, syn, warn, conf, toks)
@@ -204,7 +238,7 @@ def model_line(mode, g0, l0, ops):
         return "%d %d %d" % (l, syn, miss)
     c = dict(DEFAULT)
     parts = []
-    for t, o in enumerate(ops, start=1):
+    for t, o in zip(times, ops):
         if o[0] == "B":
             parts.append("%d B" % t)
         elif o[0] == "Y":
@@ -289,7 +323,7 @@ def set_mtime(path, t):
     os.utime(path, (BASE_T + 100 * t, BASE_T + 100 * t))
 
 
-def run_history(exe, idx, mode, g0, l0, ops):
+def run_history(exe, idx, mode, g0, l0, ops, times):
     """replays one history; returns per-op observations"""
     casedir = os.path.join(WORKROOT, "h%05d" % idx)
     shutil.rmtree(casedir, ignore_errors=True)
@@ -307,7 +341,7 @@ def run_history(exe, idx, mode, g0, l0, ops):
     c = dict(DEFAULT)
     obs = []
     nclean = 0
-    for t, o in enumerate(ops, start=1):
+    for t, o in zip(times, ops):
         if o[0] == "Y":
             with open(ypath, "w") as f:
                 f.write(_G[o[1]][0])
@@ -402,16 +436,17 @@ def run(ctx):
 
 
 def _run(ctx, exe, mexe, rng):
-    hs = targeted_histories()
+    hs = [h + (default_times(h[3]),) for h in targeted_histories()] + same_tick_histories()
     for _ in range(ctx.n(150, 2500)):
         mode = "C" if rng.random() < 0.6 else "P"
         g0 = rng.choice(VALID_G + VALID_G + CONF_G + WARN_G)
         l0 = rng.choice(VALID_L)
-        hs.append((mode, g0, l0, gen_history(rng, mode, 12)))
-    mlines = [model_line(m, g0, l0, ops) for (m, g0, l0, ops) in hs]
+        ops = gen_history(rng, mode, 12)
+        hs.append((mode, g0, l0, ops, random_times(rng, ops) if rng.random() < 0.6 else default_times(ops)))
+    mlines = [model_line(m, g0, l0, ops, ts) for (m, g0, l0, ops, ts) in hs]
     model = core.run_lines([mexe], mlines)
     with concurrent.futures.ThreadPoolExecutor(max_workers=max(2, core.NPROC)) as ex:
-        futs = [ex.submit(run_history, exe, i, m, g0, l0, ops) for i, (m, g0, l0, ops) in enumerate(hs)]
+        futs = [ex.submit(run_history, exe, i, m, g0, l0, ops, ts) for i, (m, g0, l0, ops, ts) in enumerate(hs)]
         impl = [f.result() for f in futs]
 
     # descriptor <-> bytes must be a bijection over the whole run (both directions:
@@ -428,13 +463,16 @@ def _run(ctx, exe, mexe, rng):
         ok = d2h.setdefault(d, h) == h and h2d.setdefault(h, d) == d
         return ok
 
-    for i, ((mode, g0, l0, ops), ml, ob) in enumerate(zip(hs, mlines, impl)):
+    for i, ((mode, g0, l0, ops, times), ml, ob) in enumerate(zip(hs, mlines, impl)):
         ms = parse_model(model[i])
         builds = [k for k, o in enumerate(ops) if o[0] == "B"]
         changes_between = any(ops[k][0] != "B" for k in range(builds[0], builds[-1])) if len(builds) >= 2 else False
         nontriv = len(builds) >= 2 and changes_between
-        canon = "%s %d %d %s" % (mode, g0, l0, ops)
-        hist_json = {"mode": mode, "g0": g0, "l0": l0, "ops": [list(o) for o in ops], "model_line": ml}
+        canon = "%s %d %d %s %s" % (mode, g0, l0, ops, times)
+        same_tick = any(times[k] == times[k - 1] for k in range(1, len(times)))
+        hist_json = {"mode": mode, "g0": g0, "l0": l0, "ops": [list(o) for o in ops], "times": times, "model_line": ml}
+        if same_tick:
+            ctx.count("histories_with_equal_ticks")
         ctx.case(canon, nontriv, {"history": hist_json, "model": model[i][:400]})
         ctx.count("mode_" + mode)
         ctx.count("len_%d" % len(ops))
@@ -445,8 +483,11 @@ def _run(ctx, exe, mexe, rng):
             continue
         prev_ok_build_at = None
         for k, o in enumerate(ops):
-            t = k + 1
+            t = times[k]
+            strictly_later = k == 0 or times[k] > times[k - 1]
             if o[0] != "B":
+                if not strictly_later and o[0] in "YL":
+                    ctx.count("edit_in_tick_of_previous_op")
                 ctx.count("op_" + o[0] + ("_" + o[1] if o[0] == "S" else ""))
                 continue
             nbuilds += 1
@@ -474,6 +515,8 @@ def _run(ctx, exe, mexe, rng):
                         nprop["other"] += 1
                         ctx.violation(dict(where, violated="successful incremental build differs from the clean build"))
                 # building again without any change must not regenerate or touch anything
+                # (C18_rebuild_is_noop: provided the first of the two builds happened strictly
+                # later than the last edit — otherwise its output is not newer than the source)
                 if prev_ok_build_at == k - 1 and (a["res"][1] is True or a["yw"] or a["lw"]):
                     found = True
                     nprop["other"] += 1
@@ -501,7 +544,9 @@ def _run(ctx, exe, mexe, rng):
                     else:
                         nprop["other"] += 1
                         ctx.violation(w)
-            prev_ok_build_at = k if a["res"][0] == "ok" else None
+            prev_ok_build_at = k if (a["res"][0] == "ok" and strictly_later) else None
+            if not strictly_later:
+                ctx.count("build_in_tick_of_previous_op")
             # ---- correspondence with the mirror -------------------------------
             diffs = []
             if a["res"][0] != m["r"]:
@@ -512,10 +557,12 @@ def _run(ctx, exe, mexe, rng):
                 diffs.append("parser output: exists/content class differs from %s" % my)
             if not bij(mlc, a["l"]):
                 diffs.append("lexer output: exists/content class differs from %s" % mlc)
-            if a["y"] is not None and my is not None and a["yw"] != (myt == t):
-                diffs.append("parser output written %s vs %s" % (a["yw"], myt == t))
-            if a["l"] is not None and mlc is not None and a["lw"] != (mlt == t):
-                diffs.append("lexer output written %s vs %s" % (a["lw"], mlt == t))
+            if m["yw"] in "01" and a["yw"] != (m["yw"] == "1"):
+                diffs.append("parser output written %s vs %s" % (a["yw"], m["yw"]))
+            if m["lw"] in "01" and a["lw"] != (m["lw"] == "1"):
+                diffs.append("lexer output written %s vs %s" % (a["lw"], m["lw"]))
+            if a["yw"] and myt != t or a["lw"] and mlt != t:
+                diffs.append("written file does not carry the build's time in the mirror")
             if not bij(mcy, a["cy"]):
                 diffs.append("clean parser output differs from %s" % mcy)
             if not bij(mcl, a["cl"]):
@@ -533,7 +580,9 @@ def _run(ctx, exe, mexe, rng):
         "parser-alone and combined mode; known shapes) + random histories of 3..12 operations over 12 grammar texts "
         "(valid with two token maps, %expect, unexpected conflicts, warnings, syntax errors, touch) and 6 lexer texts "
         "(valid, missing token, syntax errors), one-option-at-a-time setting changes, builds; every build is one harness "
-        "process, mtimes set from the logical clock (100 s apart); after every build: result class, regenerated(), "
+        "process, mtimes set from the logical clock (one tick = 100 s; 60 % of the random histories and a targeted family let "
+        "an operation happen in the tick of the previous one: an edit stamped exactly like the last written output, a "
+        "build in the tick of the edit before it); after every build: result class, regenerated(), "
         "written files, existence + content class (descriptor<->bytes bijection over the run) vs the mirror and bytes vs "
         "a build into an empty directory; non-trivial = at least 2 builds with a change between them; distinct by history")
     ctx.coverage["exhaustive"] = False
@@ -542,8 +591,10 @@ def _run(ctx, exe, mexe, rng):
     ctx.coverage["property_findings"] = nprop
     ctx.coverage["variant"] = {"STALE_FIXED": STALE_FIXED, "ST_IN_CACHE": ST_IN_CACHE}
     ctx.assumptions += [
-        "edits give the source a fresh, strictly larger modification time and builds stamp what they write with the current "
-        "time (clock_monotone); restoring an older file with an older mtime is outside the quantifier",
+        "an edit stamps the source with a time that is not older than any existing output (equal allowed) and builds stamp "
+        "what they write with the current time (clock_weak; builds strictly later than the last edit for the "
+        "'unchanged -> not regenerated' direction: clock_monotone); restoring an older file with an older mtime is outside "
+        "the quantifier",
         "generated text is a function of (source text, settings, token map): equal descriptors <-> equal bytes is checked on "
         "every replayed build, not proved",
         "BUILD_TIME / lrlex build time are constant during a history (one build of lrpar/lrlex)",
